@@ -341,7 +341,7 @@ fn a_to_json(rng: &mut Rng, a: &AFilter) -> Vec<(String, Value)> {
 }
 
 fn xml_safe(s: &str) -> bool {
-    !s.is_empty() && s.chars().all(|c| c >= ' ' && c != '\u{7f}')
+    !s.is_empty() && s.chars().all(|c| (c >= ' ' || c == '\t' || c == '\n') && c != '\u{7f}')
 }
 fn a_to_dlf(rng: &mut Rng, a: &AFilter) -> Option<Vec<(String, String)>> {
     if a.negate || a.lcs.is_some() {
@@ -1072,6 +1072,13 @@ fn record_multi(sink: &mut Sink, ctx: &mut Ctx, fe: FeIn, a: Option<AFilter>, al
         if a.negate {
             tags.push("negated".into());
         }
+        let texts_of = [a.ecu.as_ref().map(|c| &c.s), a.apid.as_ref().map(|c| &c.s), a.ctid.as_ref().map(|c| &c.s), a.payload.as_ref().map(|p| &p.s)];
+        if texts_of.iter().flatten().any(|t| t.trim() != t.as_str()) {
+            tags.push(format!("edge_whitespace_{}", fe_name));
+        }
+        if texts_of.iter().flatten().any(|t| t.contains(['&', '<', '>', '"', '\''])) {
+            tags.push(format!("xml_special_{}", fe_name));
+        }
         if !a.enabled {
             tags.push("disabled".into());
         }
@@ -1120,18 +1127,20 @@ fn record_multi(sink: &mut Sink, ctx: &mut Ctx, fe: FeIn, a: Option<AFilter>, al
 }
 
 // ------------------------------------------------------------------------------------------ generators
-const LIT_IDS: [&str; 19] = ["ECU1", "ECU2", "EC", "E", "ABCDE", "APID", "AP", "APIDX", "CTID", "CT", "TC", "A B", "ecu1", "", "XY", "ECU", "A.B", "C+", "A.B"];
-const RE_IDS: [&str; 14] = ["ECU1|ECU2", "^EC", "E.U", "AP|CT", "[AC]", "\\x00$", "(?i)ecu1", "^.{2}\\x00", "^ECU\\d$", "A.*D", "CT$", "^(AP|TC)", "X+", "D$"];
+const LIT_IDS: &[&str] = &["ECU1", "ECU2", "EC", "E", "ABCDE", "APID", "AP", "APIDX", "CTID", "CT", "TC", "A B", "ecu1", "", "XY", "ECU", "A.B", "C+", "A.B", "AB ", " AB", "A  ", " ", " A ", "A&B", "<A>"];
+const RE_IDS: &[&str] = &["ECU1|ECU2", "^EC", "E.U", "AP|CT", "[AC]", "\\x00$", "(?i)ecu1", "^.{2}\\x00", "^ECU\\d$", "A.*D", "CT$", "^(AP|TC)", "X+", "D$", "^AB $", "^ ", "A&B|<A>"];
 /// regular expressions without any of the auto-detection characters (only reachable with an explicit IsRegex)
 const RE_PLAIN_IDS: [&str; 4] = ["APID", "EC", "C", "T"];
-const MSG_IDS: [&[u8; 4]; 22] = [
+const MSG_IDS: &[&[u8; 4]] = &[
     b"ECU1", b"ECU2", b"EC\0\0", b"E\0\0\0", b"ABCD", b"APID", b"AP\0\0", b"CTID", b"CT\0\0", b"TC\0\0", b"ecu1", b"\0\0\0\0", b"A B\0", b"XXXX", b"XY\0\0",
     b"ECU\0", b"\xff\x01- ", b"APIX", b"A.B\0", b"AxB\0", b"C+\0\0", b"CC\0\0",
+    b"AB \0", b"AB\0\0", b" AB\0", b"A  \0", b"A\0\0\0", b" \0\0\0", b" A \0", b"A \0\0", b"A&B\0", b"<A>\0",
 ];
-const LIT_PAYLOADS: [&str; 12] = ["foo", "Foo", "FOO bar", "o", "", "stra\u{df}e", "a.b", "k", "(?i)", "bar", "12", "F"];
-const RE_PAYLOADS: [&str; 12] = ["^foo", "fo+", "foo.*bar", "(?<n>\\d+)", "(?!x)foo", "\\d{2,}", "Foo", "^$", "(?i)x", "bar$", "a.b", "[fF]oo (?=b)"];
-const TEXTS: [&str; 16] = [
+const LIT_PAYLOADS: &[&str] = &["foo", "Foo", "FOO bar", "o", "", "stra\u{df}e", "a.b", "k", "(?i)", "bar", "12", "F", "error ", " error", " ", "  ", "a\tb", "\tx", "line\n", " \n", "a & b", "a &amp; b", "x < y", "<tag>", "\"q\" 'r'", "]]>", "<![CDATA[x]]>", " two  blanks "];
+const RE_PAYLOADS: &[&str] = &["^foo", "fo+", "foo.*bar", "(?<n>\\d+)", "(?!x)foo", "\\d{2,}", "Foo", "^$", "(?i)x", "bar$", "a.b", "[fF]oo (?=b)", "^state ", "error $", " end$", "^ ", "\\t", " +x", "a &amp; b", "<b>|\"q\"", "^\\s+$", "a  b"];
+const TEXTS: &[&str] = &[
     "foo", "Foo", "FOO BAR", "a foo bar", "xfoo 12", "", "stra\u{df}e", "STRASSE", "a.b", "aXb", "\u{212a}elvin", "kelvin", "(?i)x", "foo bar", "FOO", "x 7 y",
+    "error", "errors: none", "error code", "state 1", "statement", " ", "a\tb", "a b", "a & b", "a &amp; b", "x < y", "<tag>", "the end", "\"q\" 'r'", "]]>",
 ];
 
 fn gen_aid(rng: &mut Rng) -> AId {
@@ -1228,8 +1237,13 @@ fn satisfying_msg(rng: &mut Rng, eng: &mut Engines, a: &AFilter) -> Msg {
     if let Some(p) = &a.payload {
         let only_p = AFilter { kind: 0, enabled: true, negate: false, ecu: None, apid: None, ctid: None, ty: None, lmin: None, lmax: None, payload: Some(p.clone()), lcs: None };
         let s0 = rng.below(TEXTS.len() as u64) as usize;
-        for k in 0..TEXTS.len() {
-            let cand = TEXTS[(s0 + k) % TEXTS.len()].to_string();
+        let own = near_variants(&criterion_seed(&p.s, p.regex));
+        let mut cands: Vec<String> = vec![format!("pre {} post", own[0]), own[0].clone()];
+        cands.extend((0..TEXTS.len()).map(|k| TEXTS[(s0 + k) % TEXTS.len()].to_string()));
+        if rng.chance(1, 2) {
+            cands.rotate_left(2); // pool texts first
+        }
+        for cand in cands {
             let probe = Msg { ecu, ext: None, text: Some(cand.clone()), raw: None, lc: 0 };
             if aspec(eng, &only_p, &probe, &Some(cand.clone())) {
                 text = cand;
@@ -1244,9 +1258,94 @@ fn satisfying_msg(rng: &mut Rng, eng: &mut Engines, a: &AFilter) -> Msg {
     Msg { ecu, ext: Some((vmm, apid, ctid)), text: Some(text), raw: None, lc }
 }
 
+/// the text a criterion is about: the literal itself; for a pattern its literal skeleton (anchors and escapes removed)
+fn criterion_seed(s: &str, regex: bool) -> String {
+    if !regex {
+        return s.to_string();
+    }
+    let t = s.strip_prefix("(?i)").unwrap_or(s);
+    let t = t.strip_prefix('^').unwrap_or(t);
+    let t = t.strip_suffix('$').unwrap_or(t);
+    t.replace("\\t", "\t").replace("\\s", " ").replace('\\', "")
+}
+fn flip_case(s: &str) -> String {
+    s.chars().map(|c| if c.is_ascii_lowercase() { c.to_ascii_uppercase() } else { c.to_ascii_lowercase() }).collect()
+}
+/// near variants of a criterion text: a loader that alters the criterion (trims it, drops or adds an edge character,
+/// changes white space or letter case) decides differently on at least one of them
+fn near_variants(seed: &str) -> Vec<String> {
+    let chars: Vec<char> = seed.chars().collect();
+    let mut v: Vec<String> = vec![seed.to_string(), seed.trim().to_string(), seed.trim_start().to_string(), seed.trim_end().to_string()];
+    if !chars.is_empty() {
+        v.push(chars[1..].iter().collect());
+        v.push(chars[..chars.len() - 1].iter().collect());
+    }
+    for edge in ["x", " ", "\t"] {
+        v.push(format!("{}{}", edge, seed));
+        v.push(format!("{}{}", seed, edge));
+    }
+    // the trimmed text between non-blank characters: contains the trimmed criterion but not its edge blanks
+    v.push(format!("x{}x", seed.trim()));
+    v.push(format!("x{}x", seed));
+    // white space changed
+    v.push(seed.replacen(' ', "\t", 1));
+    v.push(seed.replace(' ', "  "));
+    v.push(seed.split_whitespace().collect::<Vec<_>>().join(" "));
+    v.push(seed.chars().filter(|c| !c.is_whitespace()).collect());
+    v.push(flip_case(seed));
+    let mut seen = BTreeSet::new();
+    v.into_iter().filter(|x| seen.insert(x.clone())).collect()
+}
+
 fn universe(rng: &mut Rng, eng: &mut Engines, a: &AFilter, n_random: u64) -> (Vec<Msg>, Msg) {
     let base = satisfying_msg(rng, eng, a);
     let mut ms = vec![base.clone()];
+    // probes derived from the textual criteria themselves
+    if let Some(p) = &a.payload {
+        let mut vs = near_variants(&criterion_seed(&p.s, p.regex));
+        // keep the universe small: the structural variants first, a random subset of the rest
+        while vs.len() > 12 {
+            let k = 4 + rng.below(vs.len() as u64 - 4) as usize;
+            vs.remove(k);
+        }
+        for t in vs {
+            let mut m = base.clone();
+            m.text = Some(t);
+            ms.push(m);
+        }
+    }
+    for (which, c) in [&a.ecu, &a.apid, &a.ctid].into_iter().enumerate() {
+        if let Some(c) = c {
+            let mut ids: BTreeSet<[u8; 4]> = BTreeSet::new();
+            for t in near_variants(&criterion_seed(&c.s, c.regex)) {
+                if t.is_ascii() {
+                    ids.insert(pad4(t.as_bytes()));
+                }
+            }
+            let mut ids: Vec<[u8; 4]> = ids.into_iter().collect();
+            while ids.len() > 6 {
+                let k = rng.below(ids.len() as u64) as usize;
+                ids.remove(k);
+            }
+            for id in ids {
+                let mut m = base.clone();
+                match which {
+                    0 => m.ecu = id,
+                    1 => {
+                        if let Some(e) = &mut m.ext {
+                            e.1 = id
+                        }
+                    }
+                    _ => {
+                        if let Some(e) = &mut m.ext {
+                            e.2 = id
+                        }
+                    }
+                }
+                ms.push(m);
+            }
+        }
+    }
     // one field changed at a time
     let mut m = base.clone();
     m.ecu = **rng.pick(&MSG_IDS);
@@ -1465,7 +1564,7 @@ fn gen_ids_only(rng: &mut Rng, for_conv: bool) -> AFilter {
     a.kind = 0;
     a.enabled = true;
     a.negate = false;
-    let lit = |rng: &mut Rng| AId { s: rng.pick(&["APID", "AP", "CTID", "CT", "TC", "A B", "XY", "E", "ecu1", "ECU1", ""]).to_string(), regex: false };
+    let lit = |rng: &mut Rng| AId { s: rng.pick(&["APID", "AP", "CTID", "CT", "TC", "A B", "XY", "E", "ecu1", "ECU1", "", "AB ", " AB", " ", "A  ", "A&B"]).to_string(), regex: false };
     if for_conv {
         a.apid = Some(lit(rng));
         a.ctid = Some(lit(rng));
@@ -1498,12 +1597,12 @@ fn exhaustive_filter(bits: u32, negate: bool, enabled: bool, variant: u32) -> AF
         enabled,
         negate,
         ecu: if b(0) { Some(if lit { AId { s: "ECU1".into(), regex: false } } else { AId { s: "^ECU\\d$".into(), regex: true } }) } else { None },
-        apid: if b(1) { Some(if lit { AId { s: "AP".into(), regex: false } } else { AId { s: "AP|CT".into(), regex: true } }) } else { None },
+        apid: if b(1) { Some(if lit { AId { s: if variant == 2 { "AP ".into() } else { "AP".into() }, regex: false } } else { AId { s: "AP|CT".into(), regex: true } }) } else { None },
         ctid: if b(2) { Some(if lit { AId { s: "CTIDX".into(), regex: false } } else { AId { s: "CT$".into(), regex: true } }) } else { None },
         ty: if b(3) { Some(if lit { AType::Mstp(0) } else { AType::Vmm(0x41) }) } else { None },
         lmin: if b(4) { Some(2) } else { None },
         lmax: if b(5) { Some(4) } else { None },
-        payload: if b(6) { Some(APayload { s: if lit { "foo".into() } else { "fo+ b".into() }, regex: !lit, ic: variant % 4 >= 2 }) } else { None },
+        payload: if b(6) { Some(APayload { s: (match variant % 4 { 0 => "foo", 2 => "foo ", 1 => "fo+ b", _ => "^fo+ " }).into(), regex: !lit, ic: variant % 4 >= 2 }) } else { None },
         lcs: if b(7) { Some(if variant % 4 == 3 { vec![] } else { vec![1, 2] }) } else { None },
     }
 }
